@@ -30,9 +30,13 @@ pub enum MsgKind {
     ErrWorse,
     /// `ErrA::Bad` (fixed, short).
     ErrBad,
+    /// `Reply<Shapes>`: a derived struct that walks through the serde data model (every variant
+    /// kind incl. a struct variant whose fields are all skipped, non-finite floats, 128-bit
+    /// integers, chars, integer-keyed maps, unit, tuples, bytes-like sequences), selected by flags.
+    ReplyShapes,
 }
 
-pub const MSG_KINDS: [MsgKind; 7] = [
+pub const MSG_KINDS: [MsgKind; 8] = [
     MsgKind::CallEcho,
     MsgKind::CallPut,
     MsgKind::CallPing,
@@ -40,7 +44,78 @@ pub const MSG_KINDS: [MsgKind; 7] = [
     MsgKind::ReplyValue,
     MsgKind::ErrWorse,
     MsgKind::ErrBad,
+    MsgKind::ReplyShapes,
 ];
+
+/// Externally tagged enum with every variant kind (names include one that needs escaping).
+#[derive(Debug, Clone, PartialEq, Serialize)]
+pub enum ShapeVar {
+    Unit,
+    #[serde(rename = "say \"hi\"\\\n")]
+    Quoted,
+    Newtype(i64),
+    Tuple(u8, String),
+    Struct {
+        #[serde(skip_serializing_if = "Option::is_none")]
+        a: Option<i32>,
+        #[serde(skip_serializing_if = "Option::is_none")]
+        b: Option<String>,
+    },
+    Empty {},
+}
+
+#[derive(Debug, Clone, PartialEq, Serialize)]
+pub struct UnitStruct;
+
+#[derive(Debug, Clone, PartialEq, Serialize)]
+pub struct Shapes {
+    pub pad: String,
+    pub f: f64,
+    pub g: f32,
+    pub var: ShapeVar,
+    pub vars: Vec<ShapeVar>,
+    pub wide: (i128, u128),
+    pub c: char,
+    pub keys: BTreeMap<i16, bool>,
+    pub ckeys: BTreeMap<char, ()>,
+    pub unit: (),
+    pub us: UnitStruct,
+    pub nested: Option<Option<u8>>,
+    pub arr: [u8; 3],
+    #[serde(skip_serializing_if = "Vec::is_empty")]
+    pub skipped: Vec<u8>,
+}
+
+pub fn shapes(pad: String, flags: u8) -> Shapes {
+    let f = [1.5f64, f64::NAN, f64::INFINITY, f64::NEG_INFINITY, -0.0, 1e300, 5e-324, 0.1][(flags & 7) as usize];
+    let g = [0.25f32, f32::NAN, f32::NEG_INFINITY, 3.4028235e38][((flags >> 3) & 3) as usize];
+    let var = match (flags >> 5) & 7 {
+        0 => ShapeVar::Unit,
+        1 => ShapeVar::Quoted,
+        2 => ShapeVar::Newtype(i64::MIN),
+        3 => ShapeVar::Tuple(255, "t\u{7f}\u{0}".into()),
+        4 => ShapeVar::Struct { a: None, b: None },
+        5 => ShapeVar::Struct { a: Some(-1), b: None },
+        6 => ShapeVar::Struct { a: None, b: Some("\u{2028}".into()) },
+        _ => ShapeVar::Empty {},
+    };
+    Shapes {
+        pad,
+        f,
+        g,
+        var,
+        vars: if flags & 1 != 0 { vec![ShapeVar::Empty {}, ShapeVar::Struct { a: None, b: None }, ShapeVar::Quoted] } else { vec![] },
+        wide: (i128::MIN + flags as i128, u128::MAX - flags as u128),
+        c: ['a', '"', '\\', '\u{1f}', '\u{e9}', '\u{1F600}', '\u{0}', '/'][(flags as usize * 3) % 8],
+        keys: if flags & 2 != 0 { BTreeMap::from([(-32768, true), (0, false), (flags as i16, true)]) } else { BTreeMap::new() },
+        ckeys: if flags & 4 != 0 { BTreeMap::from([('"', ()), ('\u{1}', ())]) } else { BTreeMap::new() },
+        unit: (),
+        us: UnitStruct,
+        nested: [None, Some(None), Some(Some(7))][flags as usize % 3],
+        arr: [flags, 0, 255],
+        skipped: if flags & 16 != 0 { vec![1] } else { vec![] },
+    }
+}
 
 #[derive(Debug, Clone, Copy, PartialEq, Eq, Hash, Serialize, Deserialize)]
 pub enum RefusedKind {
@@ -108,6 +183,7 @@ impl Msg {
                 Val::ReplyOpt(r) => serde_json::to_vec(r).unwrap(),
                 Val::ReplyValue(r) => serde_json::to_vec(r).unwrap(),
                 Val::Err(e) => serde_json::to_vec(e).unwrap(),
+                Val::ReplyShapes(r) => serde_json::to_vec(r).unwrap(),
             })),
         }
     }
@@ -171,6 +247,10 @@ impl Msg {
                 f(Val::Err(&e))
             }
             MsgKind::ErrBad => f(Val::Err(&ErrA::Bad)),
+            MsgKind::ReplyShapes => {
+                let r = Reply::new(Some(shapes(p, flags))).set_continues(if flags & 64 != 0 { Some(true) } else { None });
+                f(Val::ReplyShapes(&r))
+            }
         }
     }
 
@@ -237,6 +317,10 @@ impl Msg {
                         conn.send_error(&ErrA::Worse { code: flags as i64, msg: p }).await
                     }
                     MsgKind::ErrBad => conn.send_error(&ErrA::Bad).await,
+                    MsgKind::ReplyShapes => {
+                        let r = Reply::new(Some(shapes(p, flags))).set_continues(if flags & 64 != 0 { Some(true) } else { None });
+                        conn.send_reply(&r).await
+                    }
                 }
             }
             Msg::Refused { kind, pad } => {
@@ -313,6 +397,7 @@ enum Val<'a> {
     ReplyOpt(&'a Reply<OptParams>),
     ReplyValue(&'a Reply<serde_json::Value>),
     Err(&'a ErrA),
+    ReplyShapes(&'a Reply<Shapes>),
 }
 
 #[derive(Debug, Clone, Copy, PartialEq, Eq, Hash, Serialize, Deserialize)]
@@ -330,7 +415,7 @@ impl MsgKind {
             MsgKind::CallEcho | MsgKind::CallPut | MsgKind::CallPing => {
                 &[SendOp::Enqueue, SendOp::SendCall]
             }
-            MsgKind::ReplyOpt | MsgKind::ReplyValue => &[SendOp::SendReply],
+            MsgKind::ReplyOpt | MsgKind::ReplyValue | MsgKind::ReplyShapes => &[SendOp::SendReply],
             MsgKind::ErrWorse | MsgKind::ErrBad => &[SendOp::SendError],
         }
     }
